@@ -210,6 +210,16 @@ class DLISFile:
             for lf in self.logical_files:
                 lf.check_objects()
 
+            # sets are looked up by (type, set name) in the whole file: logical files using the same set name for a type
+            # share one set object, which would be written into each of them with the objects of all of them
+            owners: dict = {}
+            for lf in self.logical_files:
+                for set_dict in lf._eflr_sets.values():
+                    for eflr_set in set_dict.values():
+                        if owners.setdefault(id(eflr_set), lf) is not lf:
+                            raise RuntimeError(f"{eflr_set} is used by more than one logical file; "
+                                               f"give the sets of each logical file their own 'set_name'")
+
             logical_records = self.generate_logical_records(
                 chunk_size=input_chunk_size,
                 data=data,
